@@ -16,7 +16,7 @@ EXPLANATION = (
     "coordinate rounding in the register package uses COORD_PRECISION (no literal). FLOW: trap identity is the coordinate rounded to COORD_PRECISION, so the uniqueness rejection of Traps.__init__ "
     "is computed on rounded coordinates too. MAP: MappableRegister.build_register hands layout.define_register the chosen ids in declared order, each paired with its mapped trap; RegisterLayout.define_register builds the register only after the trap ids "
     "were validated on both sides (membership in the layout's ids, or a lower and an upper bound: a negative id wraps around in numpy). ALIAS: no public accessor of the register classes returns a cached "
-    "coordinate array itself (as_array / asarray do not copy), so the canonical coordinates cannot be edited from outside. NOT decided: near-ties across the rounding boundary (numeric)."
+    "coordinate array itself (as_array / asarray do not copy), so the canonical coordinates cannot be edited from outside. DTYPE: sorted_coords and sorted_weights are converted to float, because __eq__ and the hash are taken over their bytes (ints and floats denote the same points). NOT decided: near-ties across the rounding boundary (numeric)."
 )
 ASSUMPTIONS = ["attribute-level taint inside the CoordsCollection class family; aliasing through locals is followed by the guard abstraction"]
 
@@ -395,4 +395,21 @@ def run(E: Engine, rep: Report, tier: str) -> dict:
                     rep.check(not aliased, "ALIAS", f"{f_.short}|returns-no-reference-to-cached-coordinates", "the returned array is a copy / a new array, not the cached storage",
                               f"{f_.short} returns `{_sh(l.value, 80)}`, i.e. the cached array `self.{root[2] if aliased else '?'}` itself (as_array/asarray do not copy): editing the result in place changes the object's canonical coordinates, and with them trap numbering, ==, hash and weights", E.where(f_, l.node))
     rep.floor("ALIAS", 3)
+    # DTYPE: equality and hash are taken over the *bytes* of the canonical arrays, so their dtype is pinned: the same
+    # points given as ints and as floats (or integer weights 0/1 and 0.0/1.0) are one layout / one map
+    def _pinned(t):
+        for x in _sym.subterms(t):
+            if x[0] == "call" and x[1][0] == "attr" and x[1][2] == "astype" and x[2] and x[2][0] == ("name", "float") and dict(x[3]).get("copy") != ("const", False):
+                return True
+            if x[0] == "call" and dict(x[3]).get("dtype") == ("name", "float"):
+                return True
+        return False
+
+    for cq, pn in (("pulser.register._coordinates.CoordsCollection", "sorted_coords"), ("pulser.register.weight_maps.WeightMap", "sorted_weights")):
+        fs_ = [f_ for f_ in E.cls(cq).methods.get(pn, []) if f_.kind in ("property", "cached_property")]
+        if not fs_:
+            raise AnalysisError(f"anchor: {cq}.{pn} not found")
+        r_ = _S(E, fs_[0], inline=False).ret
+        rep.check(r_ is not None and _pinned(r_), "DTYPE", f"{cq.split('.')[-1]}.{pn}|float-dtype-pinned", "the canonical array is converted to float (astype(float) / dtype=float)", f"{cq.split('.')[-1]}.{pn} returns `{_sh(r_, 80)}` with whatever dtype the caller's data had: its bytes feed __eq__ and the hash, so the same coordinates (weights) given as ints and as floats make two different layouts (maps)", E.where(fs_[0]))
+    rep.floor("DTYPE", 2)
     return {"derived_statuses": derived, "sinks": n_sinks, "roundings": n_round}
